@@ -175,6 +175,39 @@ pub fn drive(d: &mut Driver)
 	d.bound("module kinds", json!(MODULE_KINDS.iter().map(|m| m.0).collect::<Vec<_>>()));
 	d.bound("module histories", json!("all sequences of 1..3 module kinds through one Compiler, then linked"));
 	d.phase("module histories", jobs);
+	// (f) function bodies of the statement-level spaces (labels and gotos, variables, placement of
+	// loop and if branches): each is compiled through the complete pipeline
+	let (n4, n5, n6) = if quick { (5usize, 4usize, 5usize) } else { (6, 5, 6) };
+	let mut jobs = Vec::new();
+	let space4 = crate::spaces::body::BodySpace::new(crate::checks::c04::ATOMS);
+	for n in 0..=n4
+	{
+		for first in space4.first_choices(n, 3)
+		{
+			jobs.push(json!({"space": "bodies04", "n": n, "first": first}));
+		}
+	}
+	let space5 = crate::spaces::body::BodySpace::new(crate::checks::c05::ATOMS);
+	for n in 0..=n5
+	{
+		for first in space5.first_choices(n, 2)
+		{
+			jobs.push(json!({"space": "bodies05", "n": n, "first": first}));
+		}
+	}
+	for n in 0..=n6
+	{
+		if n == 0
+		{
+			jobs.push(json!({"space": "trees06", "n": 0, "k": 0}));
+		}
+		for k in 1..=n
+		{
+			jobs.push(json!({"space": "trees06", "n": n, "k": k}));
+		}
+	}
+	d.bound("function bodies (statements): label bodies, variable bodies, placement trees", json!([n4, n5, n6]));
+	d.phase("function bodies of the statement-level spaces", jobs);
 	d.assume("termination is bounded by a 20 s per-case watchdog; the nesting bound of the property (256) is applied on a release-profile worker with the 8 MiB main-thread stack of the real binary");
 	d.assume("inputs beyond the bounds (the property's 64 KiB texts, random token soup) are not explored");
 }
@@ -436,6 +469,46 @@ pub fn work(spec: &Value, w: &mut WorkerCtx)
 					w.result.transitions += 1;
 					judge(&[("m.pn".to_string(), text.clone())], || json!({"text": text, "sig_hint": "dependency graph"}), w);
 				}
+			}
+		}
+		"bodies04" | "bodies05" | "trees06" =>
+		{
+			let mut texts: Vec<String> = Vec::new();
+			let n = spec["n"].as_u64().unwrap() as usize;
+			match space
+			{
+				"bodies04" =>
+				{
+					let mut sp = crate::spaces::body::BodySpace::new(crate::checks::c04::ATOMS);
+					sp.for_each(n, 3, spec["first"].as_str().unwrap(), &mut |forest| {
+						for variant in 0..3
+						{
+							texts.push(crate::checks::c04::render(variant, forest).0);
+						}
+					});
+				}
+				"bodies05" =>
+				{
+					let mut sp = crate::spaces::body::BodySpace::new(crate::checks::c05::ATOMS);
+					sp.for_each(n, 2, spec["first"].as_str().unwrap(), &mut |forest| {
+						for variant in 0..3
+						{
+							texts.push(crate::checks::c05::render(variant, forest).0);
+						}
+					});
+				}
+				_ =>
+				{
+					let mut g = crate::checks::c06::Gen::new();
+					g.for_each(n, 4, spec["k"].as_u64().unwrap() as usize, 0, 1, &mut |forest| {
+						texts.push(crate::checks::c06::render(forest).0);
+					});
+				}
+			}
+			for text in texts
+			{
+				w.result.transitions += 1;
+				judge(&[("m.pn".to_string(), text.clone())], || json!({"text": text, "sig_hint": "function body"}), w);
 			}
 		}
 		"modules" =>
